@@ -137,10 +137,18 @@ func (l *layout) apply(edits []edit) ([]byte, []Tok) {
 
 // admissible: the variant is an error-free configuration whose token sequence
 // is the base's plus exactly the newline/comment tokens the edits inserted.
-func admissible(src []byte, want []Tok) bool {
+//
+// When the edits insert no token at all (pure spacing), the token sequence is
+// the base's and the parser, which reads tokens only, accepts it like the
+// base; the parse is skipped then. (The checks re-establish the domain on
+// every case anyway, so this shortcut cannot let an invalid input be judged.)
+func admissible(src []byte, want []Tok, inserted bool) bool {
 	got, _, ok := Lex(src)
 	if !ok || !SameToks(got, want) {
 		return false
+	}
+	if !inserted {
+		return true
 	}
 	return Valid(src)
 }
@@ -166,18 +174,37 @@ const (
 // Plan is the finite product a tier enumerates.
 type Plan struct {
 	A, ACRLF, B, BCRLF Depth
+	// BReduced: part (b) uses only the gap texts {none, space, newline,
+	// /*c*/, #c<nl>} (two spaces, tab and the // comment are explored on part
+	// (a) only).
+	BReduced bool
 }
+
+// reducedAlphabet lists the GapAlphabet indices used when Plan.BReduced is set.
+var reducedAlphabet = []int{0, 1, 4, 5, 6}
+
+var fullAlphabet = func() []int {
+	out := make([]int, len(GapAlphabet))
+	for i := range out {
+		out[i] = i
+	}
+	return out
+}()
 
 func PlanFor(tier string) Plan {
 	if tier == "thorough" {
 		return Plan{A: AllPairs, ACRLF: AdjacentPair, B: AdjacentPair, BCRLF: Single}
 	}
-	return Plan{A: AdjacentPair, ACRLF: Single, B: Single, BCRLF: BaseOnly}
+	return Plan{A: AdjacentPair, ACRLF: Single, B: Single, BCRLF: BaseOnly, BReduced: true}
 }
 
 func (p Plan) String() string {
 	n := []string{"base only", "all single-gap deviations", "all single-gap and adjacent-gap-pair deviations", "all single-gap and all gap-pair deviations"}
-	return fmt.Sprintf("part (a): %s (CRLF twin: %s); part (b): %s (CRLF twin: %s)", n[p.A], n[p.ACRLF], n[p.B], n[p.BCRLF])
+	alpha := ""
+	if p.BReduced {
+		alpha = " over the gap texts {none, space, newline, /*c*/, #c<nl>} only"
+	}
+	return fmt.Sprintf("part (a): %s (CRLF twin: %s); part (b): %s%s (CRLF twin: %s)", n[p.A], n[p.ACRLF], n[p.B], alpha, n[p.BCRLF])
 }
 
 // Stats counts what Enumerate produced (for the evidence file).
@@ -214,19 +241,24 @@ func Enumerate(tier string, emit func(Entry) bool) Stats {
 		idPrefix, baseName, src string
 		d                       Depth
 		twin                    bool
+		alpha                   []int
 	}
 	var jobs []job
-	add := func(b Base, d, dcrlf Depth) {
-		jobs = append(jobs, job{b.Part + "/" + b.Name, b.Name, b.Src, d, false})
+	add := func(b Base, d, dcrlf Depth, alpha []int) {
+		jobs = append(jobs, job{b.Part + "/" + b.Name, b.Name, b.Src, d, false, alpha})
 		if strings.Contains(b.Src, "\n") {
-			jobs = append(jobs, job{b.Part + "/" + b.Name + "/crlf", b.Name, strings.ReplaceAll(b.Src, "\n", "\r\n"), dcrlf, true})
+			jobs = append(jobs, job{b.Part + "/" + b.Name + "/crlf", b.Name, strings.ReplaceAll(b.Src, "\n", "\r\n"), dcrlf, true, alpha})
 		}
 	}
+	balpha := fullAlphabet
+	if plan.BReduced {
+		balpha = reducedAlphabet
+	}
 	for _, b := range PairBases() {
-		add(b, plan.A, plan.ACRLF)
+		add(b, plan.A, plan.ACRLF, fullAlphabet)
 	}
 	for _, b := range ExprBases() {
-		add(b, plan.B, plan.BCRLF)
+		add(b, plan.B, plan.BCRLF, balpha)
 	}
 
 	type result struct {
@@ -261,7 +293,7 @@ func Enumerate(tier string, emit func(Entry) bool) Stats {
 							r.st.Bases++
 						}
 						var cur []Entry
-						enumBase(j.idPrefix, j.baseName, j.src, j.d, &r.st, func(e Entry) bool {
+						enumBase(j.idPrefix, j.baseName, j.src, j.d, j.alpha, &r.st, func(e Entry) bool {
 							cur = append(cur, e)
 							if len(cur) == 512 {
 								r.chunks <- cur
@@ -302,7 +334,7 @@ type cand struct {
 	want []Tok
 }
 
-func enumBase(idPrefix, baseName, src string, d Depth, st *Stats, emit func(Entry) bool) bool {
+func enumBase(idPrefix, baseName, src string, d Depth, alpha []int, st *Stats, emit func(Entry) bool) bool {
 	seen := map[uint64]struct{}{}
 	out := func(id string, s []byte) bool {
 		h := fnv.New64a()
@@ -330,7 +362,7 @@ func enumBase(idPrefix, baseName, src string, d Depth, st *Stats, emit func(Entr
 	try := func(es []edit) bool {
 		s, want := l.apply(es)
 		st.Candidates++
-		if !admissible(s, want) {
+		if !admissible(s, want, len(want) != len(l.toks)) {
 			return true
 		}
 		return out(idPrefix+"/"+editID(es), s)
@@ -338,7 +370,7 @@ func enumBase(idPrefix, baseName, src string, d Depth, st *Stats, emit func(Entr
 	// single-gap deviations
 	for g := 0; g < n; g++ {
 		cur := l.gapText(g)
-		for a := range GapAlphabet {
+		for _, a := range alpha {
 			if GapAlphabet[a].Text == cur {
 				continue
 			}
@@ -359,11 +391,11 @@ func enumBase(idPrefix, baseName, src string, d Depth, st *Stats, emit func(Entr
 		for g := 0; g+dist < n; g++ {
 			h := g + dist
 			cg, ch := l.gapText(g), l.gapText(h)
-			for a := range GapAlphabet {
+			for _, a := range alpha {
 				if GapAlphabet[a].Text == cg {
 					continue
 				}
-				for b := range GapAlphabet {
+				for _, b := range alpha {
 					if GapAlphabet[b].Text == ch {
 						continue
 					}
